@@ -136,7 +136,11 @@ def immature (p : Params) (s : UState) (b : Blk) : Bool :=
 /-- some created output duplicates a commitment that is currently unspent -/
 def dupOutput (s : UState) (b : Blk) : Bool := b.outs.any (fun o => s.has o.1)
 
-/-- some NRD kernel repeats an excess seen fewer than its relative height blocks ago on this path -/
+/-- some NRD kernel repeats an excess seen fewer than its relative height blocks ago on this path
+(the code computes `pos.height.saturating_sub(prev.height) < relative_height`; on a path the
+previous occurrence is never above the block, `hPrev ≤ b.h`, where that is `b.h < hPrev + rel`).
+Two NRD kernels sharing an excess INSIDE one block are refused earlier, by
+`verify_no_nrd_duplicates`: `Model/ChainNrdDup.lean`. -/
 def nrdBad (s : UState) (b : Blk) : Bool :=
   b.kers.any fun k => match k with
     | .nrd _ rel ex => match s.nrd.find? (·.1 == ex) with
